@@ -303,7 +303,21 @@ pub fn gen(t: T, src: &mut Src, ti: &mut TInfo) -> Value {
         }
         T::Rp => {
             let p = src.bool();
-            rq::gen_rp(src, &mut qi, p, 0)
+            let mut v = rq::gen_rp(src, &mut qi, p, 0);
+            // the request generator may repeat a long id as the name; a value constructed
+            // through the API can hold at most 64 bytes there
+            if let Value::Map(m) = &mut v {
+                for (k, x) in m.iter_mut() {
+                    if k.as_str() == Some("name") {
+                        if let Some(t) = x.as_str() {
+                            if t.len() > 64 {
+                                *x = Value::text(rq::spec_truncate(t, 64));
+                            }
+                        }
+                    }
+                }
+            }
+            v
         }
         T::User => {
             let p = [src.bool(), src.bool(), src.bool()];
